@@ -74,6 +74,10 @@ def main():
     t_start = time.time()
     env = dict(os.environ, VERIF_TIER=a.tier, VERIF_SEED=str(a.seed), PYTHONDONTWRITEBYTECODE="1", PYTHONHASHSEED="0")
     env.pop("PYTHONPATH", None)
+    if os.environ.get("VERIF_REPO_SRC"):
+        # development aid only (seeded-change experiments on a scratch worktree): the registered checks always analyse /repo/src
+        env["PYTHONPATH"] = os.environ["VERIF_REPO_SRC"]
+        sys.path.insert(0, os.environ["VERIF_REPO_SRC"])
     os.environ.update(VERIF_TIER=a.tier, VERIF_SEED=str(a.seed))
     sys.path.insert(0, ROOT)
     from vlib import ob as OB
